@@ -34,20 +34,21 @@
    (4) C05iter_net_fragment / C05_net_fragment — the faithful net model on the refinement fragment.
    Outside: parallel loops (C06: [mon_C06inst]); the monitor gives up (accepts) when the walk needs
    more than [decide_fuel] steps or an answer is unusable. *)
-From PFDL Require Import RefSem RunCase Monitors MonitorsSeq MonitorsFork MonitorsDecide Examples RefC02 RefC03 RefDecide NetRun.
+From PFDL Require Import RefSem RunCase Monitors MonitorsSeq MonitorsFork MonitorsDecide MonitorsParams Examples RefC02 RefC03 RefDecide NetRun.
 From PFDL.Refine Require Import Main TransferDecide.
 
 Theorem C05iter_reference_semantics :
-  forall (GK : name -> list nat -> gk) (orc : oracle) (imm : nat -> bool) (body : list xstmt) (fuel : nat)
+  forall (GK : name -> list nat -> gk) (INS : name -> list nat -> list param) (LV : name -> list nat -> option name)
+         (orc : oracle) (imm : nat -> bool) (body : list xstmt) (fuel : nat)
          (script : list apicall) (tr : list callrec) (F : nat),
-    guarded_body GK body ->
+    guarded_body GK INS LV body ->
     run_script orc imm fuel body sched0 script = Ok tr -> holds_decide_with GK orc F tr = true.
 Proof. exact decide_with_ref. Qed.
 Print Assumptions C05iter_reference_semantics.
 
 Theorem C05iter_unfold_guarded :
   forall (tasks : list task) (f : nat) (body : list xstmt),
-    unfold_program tasks f = Ok body -> guarded_body (gk_at tasks) body.
+    unfold_program tasks f = Ok body -> guarded_body (gk_at tasks) (ins_at tasks) (lv_at tasks) body.
 Proof. exact unfold_program_guarded. Qed.
 Print Assumptions C05iter_unfold_guarded.
 
